@@ -20,6 +20,14 @@ pub mod irifam {
             self.as_iri()
         }
     }
+    pub trait TryIntoFull {
+        fn try_into_full(self) -> Result<RiBuf, ()>;
+    }
+    impl TryIntoFull for RiRefBuf {
+        fn try_into_full(self) -> Result<RiBuf, ()> {
+            self.try_into_iri().map_err(|_| ())
+        }
+    }
     include!("fam_body.rs");
 }
 
@@ -40,6 +48,14 @@ pub mod urifam {
     impl AsFull for RiRef {
         fn as_full(&self) -> Option<&Ri> {
             self.as_uri()
+        }
+    }
+    pub trait TryIntoFull {
+        fn try_into_full(self) -> Result<RiBuf, ()>;
+    }
+    impl TryIntoFull for RiRefBuf {
+        fn try_into_full(self) -> Result<RiBuf, ()> {
+            self.try_into_uri().map_err(|_| ())
         }
     }
     include!("fam_body.rs");
